@@ -14,9 +14,20 @@ class Rec(dict):
         return id(self)
 
 
+class _Break(Exception):
+    pass
+
+
+class _Continue(Exception):
+    pass
+
+
 class _Return(Exception):
     def __init__(self, v):
         self.v = v
+
+
+_PYTYPES = {'str': str, 'list': list, 'tuple': tuple, 'dict': dict, 'int': int, 'float': float, 'bool': bool}
 
 
 class Unknown:
@@ -100,13 +111,36 @@ class MiniEval:
                 env[st.target.id] = _BIN[type(st.op)](cur, v)
             elif isinstance(st, (ast.Global, ast.Pass)):
                 continue
+            elif isinstance(st, ast.While) and not st.orelse:
+                n = 0
+                try:
+                    while self.truth(self.eval(st.test, env, scope, depth)):
+                        n += 1
+                        if n > 2000:
+                            raise AnalysisError('minieval: loop does not terminate in 2000 iterations')
+                        try:
+                            self.exec_block(st.body, env, scope, depth)
+                        except _Continue:
+                            continue
+                except _Break:
+                    pass
+            elif isinstance(st, ast.Break):
+                raise _Break()
+            elif isinstance(st, ast.Continue):
+                raise _Continue()
             elif isinstance(st, ast.For) and not st.orelse:
                 it = self.eval(st.iter, env, scope, depth)
                 if isinstance(it, Unknown):
                     raise AnalysisError('minieval: loop over unknown')
-                for x in it:
-                    self.assign(st.target, x, env)
-                    self.exec_block(st.body, env, scope, depth)
+                try:
+                    for x in it:
+                        self.assign(st.target, x, env)
+                        try:
+                            self.exec_block(st.body, env, scope, depth)
+                        except _Continue:
+                            continue
+                except _Break:
+                    pass
             else:
                 raise AnalysisError('minieval: unsupported statement %s in %s' % (type(st).__name__, getattr(scope, 'qualname', scope)))
 
@@ -141,6 +175,8 @@ class MiniEval:
             ent = self.p.resolve_name(scope, e.id)
             if ent is not None and ent.kind in ('func', 'class'):
                 return ent.obj
+            if ent is not None and ent.kind == 'builtin' and e.id in _PYTYPES:
+                return _PYTYPES[e.id]
             try:
                 return self.p.const_value(scope, e)
             except (ValueError, TypeError) as ex:
@@ -161,6 +197,11 @@ class MiniEval:
                 raise
             if isinstance(base, Rec):
                 if e.attr not in base:
+                    k = base.get('__class__')
+                    if isinstance(k, Class):
+                        m = self.p.find_method(k, e.attr)
+                        if m is not None:
+                            return ('method', m, base)
                     raise AnalysisError('minieval: record has no field %s' % e.attr)
                 return base[e.attr]
             if isinstance(base, Class):
@@ -277,9 +318,10 @@ class MiniEval:
                         return True
                 return False
             for c in classes:
-                pyt = {'str': str, 'list': list, 'tuple': tuple, 'dict': dict, 'int': int, 'float': float, 'bool': bool}.get(c if isinstance(c, str) else None)
-                if pyt and isinstance(obj, pyt):
+                if isinstance(c, type) and isinstance(obj, c) and not isinstance(obj, Rec):
                     return True
+            if isinstance(obj, Rec):
+                return False
             if isinstance(obj, (str, int, float, list, tuple, dict, type(None))):
                 # classes resolved as builtins arrive via const path; compare by name
                 return False
@@ -287,6 +329,8 @@ class MiniEval:
         target = self.eval(fn, env, scope, depth) if not (isinstance(fn, ast.Name) and fn.id in _SAFE_BUILTINS and fn.id not in env and self._is_builtin(scope, fn.id)) else ('builtin', fn.id)
         if isinstance(target, Func):
             return self.call(target, args, kwargs, depth + 1)
+        if isinstance(target, tuple) and target and target[0] == 'method':
+            return self.call(target[1], [target[2]] + args, kwargs, depth + 1)
         if isinstance(target, tuple) and target and target[0] == 'builtin':
             f = _SAFE_BUILTINS[target[1]]
             if any(isinstance(a, Unknown) for a in args):
